@@ -1086,38 +1086,67 @@ Proof.
   - apply IH. apply NoDup_cons_iff in H. apply H.
 Qed.
 
+Lemma sample_wf_gen : forall (L : list node) n i, NoDup L -> (n <= length L)%nat ->
+  let i0 := concat (firstn n (rotate i (map knode L))) in
+  NoDup i0 /\ incl i0 L /\ length i0 = n.
+Proof.
+  intros L n i HL Hn. cbv zeta. rewrite rotate_map, firstn_map, concat_knode.
+  split; [|split].
+  - apply NoDup_firstn. eapply Permutation.Permutation_NoDup; [apply Permutation.Permutation_sym; apply rotate_perm|exact HL].
+  - intros x Hx. apply (Permutation.Permutation_in x (rotate_perm _ i L)).
+    rewrite <- (firstn_skipn n (rotate i L)). apply in_or_app. left. exact Hx.
+  - apply firstn_length_le. rewrite (Permutation.Permutation_length (rotate_perm _ i L)). exact Hn.
+Qed.
+
 Lemma sample_wf : forall n i, (n <= length (gnodes g))%nat ->
   let i0 := concat (firstn n (rotate i (map knode (gnodes g)))) in
   NoDup i0 /\ incl i0 (gnodes g) /\ length i0 = n.
+Proof. intros n i Hn. exact (sample_wf_gen (gnodes g) n i Hnd Hn). Qed.
+
+Lemma mem_In : forall u l, mem u l = true <-> In u l.
 Proof.
-  intros n i Hn. cbv zeta. rewrite rotate_map, firstn_map, concat_knode.
-  split; [|split].
-  - apply NoDup_firstn. eapply Permutation.Permutation_NoDup; [apply Permutation.Permutation_sym; apply rotate_perm|exact Hnd].
-  - intros x Hx. apply (Permutation.Permutation_in x (rotate_perm _ i (gnodes g))).
-    rewrite <- (firstn_skipn n (rotate i (gnodes g))). apply in_or_app. left. exact Hx.
-  - apply firstn_length_le. rewrite (Permutation.Permutation_length (rotate_perm _ i (gnodes g))). exact Hn.
+  intros u l. unfold mem. rewrite existsb_exists. split.
+  - intros [x [Hx E]]. apply N.eqb_eq in E. subst x. exact Hx.
+  - intro H. exists u. split; [exact H|apply N.eqb_refl].
 Qed.
 
-(* rho (or nothing) given: int(round(N*rho)) (or 1) distinct nodes are drawn, and the run
-   is the run from that explicit set *)
+(* the pool a random start is drawn from: distinct graph nodes, none of them initially recovered *)
+Lemma sample_pool_wf : forall r0,
+  NoDup (sample_pool g kind r0) /\ incl (sample_pool g kind r0) (gnodes g) /\
+  (forall y, In y (sample_pool g kind r0) -> ~ In y (r0_list r0)).
+Proof.
+  intro r0. unfold sample_pool, r0_list. destruct kind; [destruct r0 as [l|]|].
+  - split; [apply NoDup_filter; exact Hnd|]. split.
+    + intros x Hx. apply filter_In in Hx. apply Hx.
+    + intros y Hy Hin. apply filter_In in Hy. destruct Hy as [_ Hy]. apply negb_true_iff in Hy.
+      apply mem_In in Hin. rewrite Hin in Hy. discriminate Hy.
+  - split; [exact Hnd|]. split; [apply incl_refl|]. intros y _ [].
+  - split; [exact Hnd|]. split; [apply incl_refl|]. intros y _ [].
+Qed.
+
+(* rho (or nothing) given: int(round(N*rho)) (or 1) distinct nodes are drawn -- none of them initially recovered --
+   and the run is the run from that explicit set *)
 Theorem gillespie_rho : forall r0 rho fuel out,
   reach (gillespie g kind tau gamma None r0 rho tmin tmax full fuel) out ->
   let n := match rho with None => 1%Z | Some r => round_half_even (Qnat (length (gnodes g)) * r) end in
-  (0 <= n)%Z /\ exists i0, NoDup i0 /\ incl i0 (gnodes g) /\ Z.of_nat (length i0) = n /\
+  (0 <= n)%Z /\ exists i0, NoDup i0 /\ incl i0 (gnodes g) /\ (forall y, In y i0 -> ~ In y (r0_list r0)) /\
+    Z.of_nat (length i0) = n /\
     reach (gillespie g kind tau gamma (Some i0) r0 None tmin tmax full fuel) out.
 Proof.
   intros r0 rho fuel out H. cbv zeta.
   assert (Hgen : forall n : Z,
     reach (if (n <? 0)%Z then Fail ValueErr
-           else Sample (map knode (gnodes g)) (Z.to_nat n) (fun ks =>
+           else Sample (map knode (sample_pool g kind r0)) (Z.to_nat n) (fun ks =>
                   gillespie g kind tau gamma (Some (concat ks)) r0 None tmin tmax full fuel)) out ->
-    (0 <= n)%Z /\ exists i0, NoDup i0 /\ incl i0 (gnodes g) /\ Z.of_nat (length i0) = n /\
+    (0 <= n)%Z /\ exists i0, NoDup i0 /\ incl i0 (gnodes g) /\ (forall y, In y i0 -> ~ In y (r0_list r0)) /\
+      Z.of_nat (length i0) = n /\
       reach (gillespie g kind tau gamma (Some i0) r0 None tmin tmax full fuel) out).
   { intros n Hn. destruct (n <? 0)%Z eqn:En; [inversion Hn|]. apply Z.ltb_ge in En. split; [exact En|].
     inversion Hn as [| | | | | | |? ? ? i ? Hl Hk]; subst. rewrite map_length in Hl.
-    pose proof (sample_wf (Z.to_nat n) i Hl) as Hs. cbv zeta in Hs. destruct Hs as [A [B C]].
-    exists (concat (firstn (Z.to_nat n) (rotate i (map knode (gnodes g))))).
-    split; [exact A|]. split; [exact B|]. split; [|exact Hk].
+    destruct (sample_pool_wf r0) as [P1 [P2 P3]].
+    pose proof (sample_wf_gen (sample_pool g kind r0) (Z.to_nat n) i P1 Hl) as Hs. cbv zeta in Hs. destruct Hs as [A [B C]].
+    exists (concat (firstn (Z.to_nat n) (rotate i (map knode (sample_pool g kind r0))))).
+    split; [exact A|]. split; [intros x Hx; apply P2, B, Hx|]. split; [intros y Hy; apply P3, B, Hy|]. split; [|exact Hk].
     apply (f_equal Z.of_nat) in C. rewrite Z2Nat.id in C by exact En. exact C. }
   destruct rho as [r|]; [|apply Hgen; exact H].
   destruct r0 as [l0|]; [|apply Hgen; exact H].
